@@ -163,6 +163,11 @@ def scenarios(tier, rng):
     for a in abandoned():
         out.append(a)
         i += 1
+    # the run ends by the application's Disconnect while calls still wait: none of them may report success
+    for kinds in [list(c) for n in (1, 2) for c in itertools.product(KINDS, repeat=n)]:
+        sc = [{"c": 1, "k": "PUBREC"}] if kinds[0] == "pub2" else []
+        out.append({"id": "z%d" % i, "calls": [{"kind": k, "n": 1} for k in kinds], "script": sc, "endBy": "disconnect"})
+        i += 1
     # a very prompt broker: the acknowledgement has been read and dispatched before Transport.Write returns to the caller
     for kinds in [list(c) for n in (1, 2, 3) for c in itertools.product(KINDS, repeat=n)]:
         out.append({"id": "q%d" % i, "calls": [{"kind": k, "n": 1 + j % 2} for j, k in enumerate(kinds)], "script": [], "prompt": True})
@@ -182,8 +187,8 @@ def scenarios(tier, rng):
     return out, sims
 
 
-def run_real(binary, scs):
-    lines = [json.dumps({"id": "b%d" % bi, "batch": b}) for bi, b in enumerate(vlib.chunks(scs, 20))]
+def run_real(binary, scs, batch=20):
+    lines = [json.dumps({"id": "b%d" % bi, "batch": b}) for bi, b in enumerate(vlib.chunks(scs, batch))]
     p = vlib.run_drive(binary, ["run", "acks", "-j", str(vlib.NCPU), "-c", "4", "-timeout", "120s"], stdin="\n".join(lines) + "\n", timeout=1500)
     if p.returncode != 0:
         raise vlib.Infra("acks driver failed: " + p.stderr[-2000:])
@@ -252,6 +257,17 @@ def run(tier):
             verd.witness("connection-ended-during-script", "", rr["err"], {"scenario": byid[b["id"]], "result": rr})
             continue
         for f in b["f"]:
+            if f == "OwnAckCompletes":
+                # the only observer with a time bound (the call must have returned when the run is declared quiet): on a
+                # loaded machine a goroutine can be late; it has to fail twice more when the scenario runs alone
+                again = 0
+                for _ in range(2):
+                    r2, c2 = run_real(binary, [dict(byid[b["id"]], id="again")], batch=1)
+                    b2 = validate(r2) if r2 else []
+                    again += 1 if (c2 or any("OwnAckCompletes" in x["f"] for x in b2)) else 0
+                if again < 2:
+                    verd.notes.append("OwnAckCompletes failed once for %s and did not reproduce alone (load)" % b["id"])
+                    continue
             verd.witness(f, "+".join(c["kind"] for c in rr["calls"]), "calls %s script %s events %s" % (json.dumps(rr["calls"]), json.dumps(byid[b["id"]]["script"])[:200], json.dumps(rr["evs"])[:400]),
                          {"scenario": byid[b["id"]], "result": rr})
     rc = verd.finish()
